@@ -46,7 +46,9 @@ def die_tree(d: dict) -> dict:
 def netlist_tree_for_fixed(fixed: dict) -> dict | None:
     if not fixed:
         return None
-    return {"Modules": {name: {"fixed": True, "rectangles": [list(r) for r in rects]} for name, rects in fixed.items()}}
+    # a module with a single rectangle may be written in the flat form `rectangles: [x, y, w, h]` (every second one is)
+    return {"Modules": {name: {"fixed": True, "rectangles": (list(rects[0]) if len(rects) == 1 and k % 2 else [list(r) for r in rects])}
+                        for k, (name, rects) in enumerate(fixed.items())}}
 
 
 def _index_layout(rng, struct: str, nx: int, ny: int) -> list[tuple[int, int, int, int]]:
